@@ -65,6 +65,9 @@ type goPkg struct {
 	CyclicWhy   string
 	TypeErrors  []string
 	convMethods map[string][]int // "S->I" -> method units
+	// ImportedMentions: unit -> bare names of the objects of OTHER packages (types, functions, constants,
+	// globals, methods of imported types) its declaration mentions; these are never same-package dependencies
+	ImportedMentions map[int]map[string]bool
 }
 
 func pkgBase(p string) string {
@@ -309,7 +312,20 @@ func (p *goPkg) analyzeDeps(srcImp types.ImporterFrom) {
 	for _, fn := range sortedKeys(p.Files) {
 		files = append(files, p.Files[fn])
 	}
-	conf.Check(modPath+"/"+p.Name, p.Fset, files, info)
+	self, _ := conf.Check(modPath+"/"+p.Name, p.Fset, files, info)
+	p.ImportedMentions = map[int]map[string]bool{}
+	noteImported := func(i int, o types.Object) {
+		if o == nil || o.Pkg() == nil || o.Pkg() == self {
+			return
+		}
+		if _, isPkgName := o.(*types.PkgName); isPkgName {
+			return
+		}
+		if p.ImportedMentions[i] == nil {
+			p.ImportedMentions[i] = map[string]bool{}
+		}
+		p.ImportedMentions[i][o.Name()] = true
+	}
 	p.TypeErrors = append(p.TypeErrors, impErrs...)
 
 	unitOf := map[types.Object]int{}
@@ -353,6 +369,7 @@ func (p *goPkg) analyzeDeps(srcImp types.ImporterFrom) {
 				switch x := x.(type) {
 				case *ast.Ident:
 					if o := info.Uses[x]; o != nil {
+						noteImported(i, o)
 						if f, ok := o.(*types.Func); ok {
 							o = f.Origin()
 						}
